@@ -118,9 +118,9 @@ func cmdCheck(args []string) int {
 		writeEvidence(verifDir, id, tier, seed, nil, nil, nil, time.Since(t0).Seconds(), violations, &spec, nil, eng)
 		return 1
 	}
-	cfg := SolverCfg{TimeoutS: 10, OutDir: smtDir, Jobs: 16}
+	cfg := SolverCfg{TimeoutS: 20, OutDir: smtDir, Jobs: 16}
 	if tier == "thorough" {
-		cfg.TimeoutS = 60
+		cfg.TimeoutS = 90
 	}
 	var results []*FuncResult
 	var all []*Obligation
@@ -144,9 +144,7 @@ func cmdCheck(args []string) int {
 		}
 		results = append(results, r)
 		all = append(all, r.Obligations...)
-		if r.Cover != nil {
-			covers = append(covers, r.Cover)
-		}
+		covers = append(covers, r.Covers...)
 	}
 	for _, ln := range spec.Lemmas {
 		found := false
